@@ -3,39 +3,49 @@
 package mod_cors
 
 import (
+	"net/url"
+
 	"github.com/bfenetworks/bfe/bfe_basic"
 	"github.com/bfenetworks/bfe/bfe_http"
 )
 
 var verifModC52 *ModuleCors
 
-// VerifCorsC52 loads the rules (conditions chosen by the caller) for product "p" through ruleListConvert and runs the
-// real module callback on a request of the given product: preflight=false -> corsHandler (HandleReadResponse,
-// rspHeader is the backend response header, mutated in place), preflight=true -> corsPreflightHandler
-// (HandleFoundProduct).  Returns the handler's return code, the response header (nil when no response), and
-// the rule conversion error.
-func VerifCorsC52(raws []CorsRuleRaw, product string, reqMethod string, reqHeader bfe_http.Header,
-	rspHeader bfe_http.Header, preflight bool) (int, bfe_http.Header, error) {
+// VerifCorsResetC52 starts a history with an empty rule table (the module instance and its counters are created
+// once per process; every history gets a fresh table from NewCorsRuleTable, as NewModuleCors does).
+func VerifCorsResetC52() {
 	if verifModC52 == nil {
 		verifModC52 = NewModuleCors()
+		return
 	}
+	verifModC52.ruleTable = NewCorsRuleTable()
+}
+
+// VerifCorsReloadC52 reloads the rule file at path through the module's reload handler
+// (loadRuleData -> CorsRuleFileLoad -> CorsRuleTable.Update), exactly as the web reload endpoint does.
+func VerifCorsReloadC52(path string) error {
+	_, err := verifModC52.loadRuleData(url.Values{"path": []string{path}})
+	return err
+}
+
+// VerifCorsRequestC52 runs the real module callback on a request of the given product against the rule table as it
+// is now: preflight=false -> corsHandler (HandleReadResponse, rspHeader is the backend response header, mutated in
+// place), preflight=true -> corsPreflightHandler (HandleFoundProduct).  Returns the handler's return code and the
+// response header (nil when no response).
+func VerifCorsRequestC52(product string, reqMethod string, reqHeader bfe_http.Header,
+	rspHeader bfe_http.Header, preflight bool) (int, bfe_http.Header) {
 	m := verifModC52
-	rules, err := ruleListConvert(RuleRawList(raws))
-	if err != nil {
-		return 0, nil, err
-	}
-	m.ruleTable.Update(&CorsRuleConf{Version: "v", Config: ProductRuleList{"p": rules}})
 	req := new(bfe_basic.Request)
 	req.HttpRequest = &bfe_http.Request{Method: reqMethod, Header: reqHeader, Host: "example.org"}
 	req.Route.Product = product
 	if preflight {
 		ret, resp := m.corsPreflightHandler(req)
 		if resp == nil {
-			return ret, nil, nil
+			return ret, nil
 		}
-		return ret, resp.Header, nil
+		return ret, resp.Header
 	}
 	resp := &bfe_http.Response{StatusCode: 200, Header: rspHeader}
 	ret := m.corsHandler(req, resp)
-	return ret, resp.Header, nil
+	return ret, resp.Header
 }
